@@ -81,6 +81,7 @@ func init() {
 			{ID: "R04.5", Title: "result discipline: (result, nil) or (nil, non-nil error), never (nil, nil)", Floor: 90, Run: ruleR045},
 			{ID: "R04.7", Title: "slicing and indexing of strings on the parsing path is bounded by decode widths or a length test", Floor: 8, Run: ruleR047},
 			{ID: "R04.8", Title: "the end-of-input mark cannot be forged by a character of the input", Floor: 1, Run: ruleR048},
+			{ID: "R04.9", Title: "error decoration that scales with the configuration is added once, not once per nesting level", Floor: 1, Run: ruleR049},
 			{ID: "R03.3", Title: "operator levels are entered in range of the operator table (see C03)", Floor: 3, Run: ruleR033},
 		},
 	})
